@@ -54,7 +54,7 @@ def compare(ctx: Ctx, h, rows, weights, wkind, what=""):
     shape = tuple(len(ps) for ps in axes_pairs)
     require(h.frequencies.shape == shape == h.errors2.shape, "shape", f"{what}{h.frequencies.shape} vs {shape}")
     n = len(rows)
-    exact = wkind in ("none", "int", "dyadic")
+    exact = wkind in ("none", "int", "dyadic", "signed")
     tol = 0.0 if exact else (n + 8) * 2.0 ** -52 * m["abs_in"] + (n + 1) * 2.3e-308
     mass2 = sum(float(F(w)) ** 2 for w in weights) if weights is not None else float(n)
     tol2 = 0.0 if exact else (n + 16) * 2.0 ** -52 * mass2 + (n + 1) * 2.3e-308
@@ -141,6 +141,19 @@ def check_explicit(case, ctx: Ctx):
         ctx.nt()
         ctx.refused("N-D construction with NaN and dropna=False", build, arr, bins)
         return
+    if wkind == "signed":
+        # negative weights are legal input; a histogram with a negative cell is not
+        # (outside free arithmetics) and may be refused
+        ctx.label("signed_weights")
+        mm = model.histnd([ax["pairs"] for ax in case["axes"]], [ax.get("incl", True) for ax in case["axes"]], rows, weights)
+        if any(v < 0 for v in mm["cells"].values()):
+            ctx.label("negative_cell")
+            ok, h = ctx.maybe(build, arr, bins)
+            if not ok:
+                return
+        elif mm["missed"] < 0:
+            ctx.label("negative_missed")
+            ctx.nt()
     h = ctx.call(entry, build, arr, bins)
     # explicit specifications must be reproduced exactly
     for i, ax in enumerate(case["axes"]):
@@ -186,7 +199,7 @@ def axis(draw, max_bins):
         ax.update(w=w, n=n, min=mn, incl=draw(st.booleans()))
         ax["pairs"] = [[mn + i * w, mn + (i + 1) * w] for i in range(n)]
     elif form in ("pairs", "static"):
-        ax["pairs"] = draw(gen.pairs(1, max_bins))
+        ax["pairs"] = draw(gen.pairs(1, max_bins, narrow=True))
         ax["incl"] = draw(st.booleans()) if form == "static" else True
     else:
         ax["pairs"] = draw(gen.pairs(1, max_bins, gapped=False))
@@ -203,7 +216,7 @@ def explicit_cases(draw, tier="quick"):
     allow_nan = draw(st.sampled_from([False, False, True]))
     cols = [draw(gen.values_for(ax["pairs"], n, n, allow_nan=allow_nan)) for ax in axes]
     rows = [[cols[j][i] for j in range(d)] for i in range(n)]
-    wkind, weights = draw(gen.weights_for(n))
+    wkind, weights = draw(gen.weights_for(n, kinds=("none", "int", "dyadic", "float", "signed")))
     entries = {2: ["h", "h", "h_lists", "h2", "h2", "h2_lists"], 3: ["h", "h_lists", "h3", "h3_cols", "h3_cols"], 4: ["h", "h_lists"]}[d]
     entry = draw(st.sampled_from(entries))
     if entry == "h3_cols" and n == 0:
